@@ -12,6 +12,8 @@ def status():
         pid = f"C{i:02d}"
         m = json.loads((V / "manifest.d" / f"{pid}.json").read_text())
         level = re.match(r"\s*proof[^:]*", m["level_text"]).group(0).strip()
+        level = level[:90] + ("…" if len(level) > 90 else "")
+        level += ")" * (level.count("(") - level.count(")"))
         f = json.loads((V / "findings.d" / f"{pid}.json").read_text()) if (V / "findings.d" / f"{pid}.json").exists() else {"open": [], "fixed": []}
         ev = json.loads((V / "evidence" / f"{pid}.json").read_text()) if (V / "evidence" / f"{pid}.json").exists() else {}
         cov = ev.get("coverage", {})
